@@ -69,7 +69,10 @@ pub fn walk(spec: &SpecTable, input: &[u8], items: &[TagV], start_at: usize) -> 
             continue;
         }
         let err = |what: String| WalkError { item: i, what };
-        let (id, idl) = dec_id(&input[cur.min(input.len())..]).ok_or_else(|| err(format!("no complete id at offset {}", cur)))?;
+        // a zero first byte has no length marker at all; the library's convention (id 0, one byte,
+        // which strict mode then rejects as an invalid id) is accepted, the property does not define it
+        let at = &input[cur.min(input.len())..];
+        let (id, idl) = if at.first() == Some(&0) { (0, 1) } else { dec_id(at).ok_or_else(|| err(format!("no complete id at offset {}", cur)))? };
         if id != t.id {
             return Err(err(format!("item has id {:x} but the bytes at offset {} hold id {:x}", t.id, cur, id)));
         }
